@@ -280,3 +280,21 @@ def scenario(ctx):
         text2, exc2, _ = _write(mesh)
         ctx.prove("second-write-succeeds-too", exc2 is None, exc=repr(exc2)[:200])
         theorem_c01(ctx, mesh, text2, exc2, conflict_possible=False, again="second-write/")
+
+
+@proof("C01", "scenario/size-based-chops/written-moved-written", cases=list(__import__("contracts.spec.regrade", fromlist=["CASES"]).CASES), level="S", samples=1,
+       functions=["classy_blocks.grading.chop:Chop.calculate", "classy_blocks.grading.chop:Chop.copy_preserving", BL + "grade_blocks",
+                  MG + "WireChopManager.grade", "classy_blocks.items.wires.axis:Axis.copy_grading"],
+       note="executed contract (no symbolic content): size-based chops, write, move vertices so that the chopped edges change length, "
+            "write again - the theorem of C01 on the second file (round 5: counts remembered on a Chop between gradings)")
+def written_moved_written(ctx):
+    from contracts.spec import regrade
+
+    r = regrade.write_move_write(ctx.case)
+    ctx.prove("first-write-succeeds", r["first"][1] is None, exc=repr(r["first"][1])[:200])
+    text, exc = r["second"]
+    ctx.prove("second-write-succeeds", exc is None, exc=repr(exc)[:200])
+    if exc is None:
+        theorem_c01(ctx, r["mesh"], text, exc, conflict_possible=False, again="second-write/")
+        ctx.prove("second-write/counts-are-those-of-a-fresh-model-of-the-moved-geometry",
+                  [ax.count for b in r["mesh"].blocks for ax in b.axes] == [ax.count for b in r["fresh"].blocks for ax in b.axes])
